@@ -675,6 +675,10 @@ retryLoop:
 			timer.Stop()
 			break retryLoop
 		}
+		if ctx.Err() != nil {
+			// the timer and the context may be ready at the same time
+			break retryLoop
+		}
 		sched.logger.Trace("Job retry", "key", jobDetail.jobKey.String(), "attempt", i)
 		err = jobDetail.job.Execute(ctx)
 		if err == nil {
